@@ -169,9 +169,36 @@ def discharge(ob, timeout_s=10, use_cvc5=True, want_model=True):
     return OResult(ob.name, ob.kind, ob.func, "undecided", "z3", time.time() - t0, note="unknown")
 
 
+class _Budget(Exception):
+    pass
+
+
 def verify_function(env, con, timeout_s=10, use_cvc5=True):
+    import signal
     fr = FResult(con.qual)
     t0 = time.time()
+    budget = int(os.environ.get("PYVC_FUNC_TIMEOUT", "900"))
+
+    def _alarm(signum, frame):
+        raise _Budget()
+    old = signal.signal(signal.SIGALRM, _alarm)
+    signal.alarm(budget)
+    try:
+        return _verify_function(env, con, timeout_s, use_cvc5, fr, t0)
+    except _Budget:
+        fr.demoted = "time budget of %ds for symbolic execution + discharge exceeded" % budget
+        fi = env.repo.funcs.get(con.qual)
+        if fi is not None:
+            fr.sha, fr.file, fr.line = fi.sha, fi.path, fi.lineno
+        fr.obligs = []
+        fr.secs = time.time() - t0
+        return fr
+    finally:
+        signal.alarm(0)
+        signal.signal(signal.SIGALRM, old)
+
+
+def _verify_function(env, con, timeout_s, use_cvc5, fr, t0):
     try:
         finfo, obs, loops, inlined, ncases, npaths = collect_obligations(env, con)
     except Unsupported as e:
